@@ -4,3 +4,6 @@ package rt
 
 // SetPerturb is a no-op without the verif hooks.
 func SetPerturb(level int) {}
+
+// SetOnBigEnqueue is a no-op without the verif hooks.
+func SetOnBigEnqueue(f func()) {}
